@@ -1,4 +1,6 @@
 SPECIFICATION Spec
+CONSTANTS
+  Mode = "C20"
 CONSTRAINT HW
 POSTCONDITION Accepted
 CHECK_DEADLOCK FALSE
